@@ -53,7 +53,7 @@ type H struct{}
 func (H) ID() string { return "C19" }
 
 // Faults implements core.Harness.
-func (H) Faults() core.FaultMenu { return core.FaultMenu{Stall: true, MaxSteps: 1500, PCTSteps: 40} }
+func (H) Faults() core.FaultMenu { return core.FaultMenu{Stall: true, MaxSteps: 6000, PCTSteps: 40} }
 
 // Decode implements core.Harness.
 func (H) Decode(b []byte) (any, error) {
